@@ -119,8 +119,8 @@ impl StreamFilter {
 pub fn decode_nibble(c: u8) -> Option<u8> {
     match c {
         n @ b'0' ..= b'9' => Some(n - b'0'),
-        a @ b'a' ..= b'h' => Some(a - b'a' + 0xa),
-        a @ b'A' ..= b'H' => Some(a - b'A' + 0xA),
+        a @ b'a' ..= b'f' => Some(a - b'a' + 0xa),
+        a @ b'A' ..= b'F' => Some(a - b'A' + 0xA),
         _ => None
     }
 }
